@@ -43,6 +43,13 @@ fn main() {
         }
         return;
     }
+    if args[1] == "shrink1" {
+        // gth shrink1 <replay.json> <driver> <RuleCode> <out.json>: shrink while the implementation's
+        // verdict for that rule differs from the oracle's
+        std::env::set_var("GTH_SHRINK_RULE", &args[4]);
+        shrink_cmd(&args[2], &args[3], "rule", &args[5]);
+        return;
+    }
     if args[1] == "shrink" {
         // gth shrink <replay.json> <driver> <mode: model|spec> <out.json>
         shrink_cmd(&args[2], &args[3], &args[4], &args[5]);
@@ -240,6 +247,17 @@ fn differs(si: &gen::SchemaInfo, doc_text: &str, op: &str, extra: &[String], dri
         Some(i) => (all[..i].to_vec(), Some(all[i + 1..].to_vec())),
         None => (all, None),
     };
+    if mode == "rule" {
+        let rule = std::env::var("GTH_SHRINK_RULE").unwrap_or_default();
+        let fired = impl_lines.iter().any(|l| l.starts_with(&format!("E {} ", rule)));
+        let spec = spec?;
+        let want = spec.iter().find(|l| l.starts_with(&format!("V {} ", rule)))?;
+        let v = want.split_whitespace().nth(2)?;
+        if v == "X" {
+            return None;
+        }
+        return if fired != (v == "1") { Some((impl_lines.clone(), spec.clone())) } else { None };
+    }
     let a = canon(&impl_lines);
     let b = if mode == "spec" {
         match spec {
